@@ -113,6 +113,24 @@ func RunOpAPI(r OpReq) (Outcome, []InputMutation) {
 	return o, muts
 }
 
+// RunOpAPISpare executes the request with an input list that is a prefix of a longer
+// array: behind its length the array holds other tensors (a caller's scratch buffer,
+// a list re-filled per call). What lies behind len is not part of the list.
+func RunOpAPISpare(r OpReq) Outcome {
+	ins := ToTensors(r.Inputs)
+	full := make([]tensor.Tensor, len(ins)+4)
+	copy(full, ins)
+	for j := len(ins); j < len(full); j++ {
+		switch j % 2 {
+		case 0:
+			full[j] = tensor.New(tensor.WithShape(2, 2), tensor.WithBacking([]float32{100, 200, 300, 400}))
+		default:
+			full[j] = tensor.New(tensor.WithShape(2), tensor.WithBacking([]bool{true, false}))
+		}
+	}
+	return runOpOn(r, full[:len(ins)])
+}
+
 // runOpOn executes the request through the operator API on the given tensor objects.
 func runOpOn(r OpReq, ins []tensor.Tensor) Outcome {
 	phase := "lookup"
@@ -464,13 +482,15 @@ type ModelOpts struct {
 	RawInits  bool   // initializers use raw_data
 	Truncate  bool   // drop trailing absent inputs instead of naming them ""
 	DynamicIn bool   // declare graph inputs with symbolic dimensions
+	IR        int64  // ir_version of the model (0 = the usual one, < 0 = absent)
 }
 
 // BuildOpModel renders the request as a single-node model.
 func BuildOpModel(r OpReq, mo ModelOpts) (*Graph, map[string]*ref.T) {
-	g := &Graph{}
+	g := &Graph{IR: mo.IR}
 	feed := map[string]*ref.T{}
 	node := GNode{Op: r.Op, Attrs: r.Attrs, Outputs: r.outNames()}
+	names := map[*ref.T]string{} // one operand object at several positions = one graph value read twice
 	last := len(r.Inputs)
 	if mo.Truncate {
 		for last > 0 && r.Inputs[last-1] == nil {
@@ -483,7 +503,12 @@ func BuildOpModel(r OpReq, mo ModelOpts) (*Graph, map[string]*ref.T) {
 			node.Inputs = append(node.Inputs, "")
 			continue
 		}
+		if prev, ok := names[in]; ok {
+			node.Inputs = append(node.Inputs, prev)
+			continue
+		}
 		name := fmt.Sprintf("i%d", i)
+		names[in] = name
 		node.Inputs = append(node.Inputs, name)
 		if mo.InitMask&(1<<uint(i)) != 0 {
 			g.Inits = append(g.Inits, GInit{Name: name, T: in, Raw: mo.RawInits})
